@@ -51,7 +51,8 @@ CONSTANTS
   MaxRecvSize,  \* max_receive_size: bytes of concurrent requests (0 = unlimited); servers only
   RecvMax,      \* MQTT 5 Receive Maximum announced by this endpoint (0 = none)
   MaxQos,       \* maximum QoS accepted (servers)
-  AliasMax      \* MQTT 5 Topic Alias Maximum announced by this endpoint
+  AliasMax,     \* MQTT 5 Topic Alias Maximum announced by this endpoint
+  GateStop      \* BOOLEAN: the connection-control service answers Control::Stop only on command
 
 E(e, k, s, id, q, r, n, x) == [e |-> e, k |-> k, s |-> s, id |-> id, q |-> q, r |-> r, n |-> n, x |-> x]
 Quiet == E("quiet", "alive", 0, 0, 0, 0, 0, "")
@@ -68,7 +69,8 @@ NoErr == [kind |-> "none", rc |-> 0]
 InitH == IF Role = "server" THEN 2 ELSE 1       \* the handshake handler was h = 1
 TopicName(topic) == IF topic = "long" THEN "tttttttttttttttttttttttttttttttttttttttt" ELSE topic
 
-Init0 == [ alive   |-> TRUE,
+Init0 == [ alive   |-> TRUE,      \* the io dispatcher is in its Processing state (reads and dispatches)
+           phase   |-> "run",     \* run | stop (Control::Stop is being handled) | done (shut down)
            ioq     |-> << >>,     \* response queue of io.rs: Seq of [n, r, sz]
            inline  |-> 0,         \* n of the request whose future the dispatcher polls inline (0 = none)
            err     |-> NoErr,     \* state.error of io.rs
@@ -105,17 +107,33 @@ CloseSink(st) ==
 FailClose(st, isCtl) == IF Ver = 3 /\ (isCtl \/ Role = "client") THEN CloseSink(st) ELSE st
 
 ----------------------------------------------------------------------------
-\* Control::Stop and shutdown.  The connection task completes at once unless the BufferService still
-\* holds a released call (next_call guard) or parked calls: then its shutdown waits for them.
+\* Shutdown: Dispatcher::shutdown closes the sink, `stopping` is notified, every handler still in flight is
+\* dropped, the connection task completes.  (While the BufferService still holds a released call or parked
+\* calls its shutdown waits for them: then nothing of this happens yet.)
+RECURSIVE Drops(_)
+Drops(gs) == IF gs = << >> THEN << >> ELSE << E("h_drop", "", Head(gs).h, 0, 0, 0, 0, "") >> \o Drops(Tail(gs))
+Shutdown(st) ==
+  IF (st.ctlRun # 0 /\ st.held) \/ st.ctlBuf # << >> THEN [st EXCEPT !.phase = "done"]
+  ELSE [Emit(st, << E("conn_done", "ok", 0, 0, 0, 0, 0, "") >> \o Drops(st.gates))
+          EXCEPT !.phase = "done", !.gates = << >>]
+
+\* the control service has handled Control::Stop: MQTT 5 answers with DISCONNECT (unless one was written or the
+\* io is closed already), then shutdown
+StopDone(st, h, rc) ==
+  LET s1 == Emit(st, << E("ctl_done", "ok", h, 0, 0, 0, 0, "") >>)
+      s2 == IF Ver = 5 /\ rc >= 0 THEN Write(s1, Resp("DISCONNECT", 0, rc)) ELSE s1
+  IN Shutdown(CloseSink(s2))
+
+\* Control::Stop(kind): the dispatcher leaves Processing for good
 Stop(st, kind, rc) ==
   LET h == st.nextH
-      s1 == Emit(st, << E("ctl", kind, h, 0, 0, 0, 0, ""), E("ctl_done", "ok", h, 0, 0, 0, 0, "") >>
-                     \o (IF (st.ctlRun # 0 /\ st.held) \/ st.ctlBuf # << >> THEN << >>
-                         ELSE << E("conn_done", "ok", 0, 0, 0, 0, 0, "") >>))
-      s2 == IF Ver = 5 THEN Write(s1, Resp("DISCONNECT", 0, rc)) ELSE s1
-  IN [CloseSink(s2) EXCEPT !.alive = FALSE, !.nextH = h + 1]
+      s1 == [Emit(st, << E("ctl", kind, h, 0, 0, 0, 0, "") >>) EXCEPT !.alive = FALSE, !.nextH = h + 1, !.phase = "stop"]
+  IN IF GateStop
+       THEN [s1 EXCEPT !.gates = Append(@, [h |-> h, n |-> 0, kind |-> "stop", id |-> rc, q |-> 0])]
+       ELSE StopDone(s1, h, rc)
 
 \* the dispatcher notices state.error at its next poll
+\* (only in its Processing state: errors raised after Stop are dropped silently)
 CheckErr(st) == IF st.err.kind # "none" /\ st.alive THEN Stop(st, st.err.kind, st.err.rc) ELSE st
 SetErr(st, r) == [st EXCEPT !.err = [kind |-> ErrKind(r), rc |-> r.rc]]
 
@@ -266,6 +284,10 @@ Dispatch(st0, p) ==
            ELSE CtlArrive(st, n, p.kind, p.id)
     [] OTHER -> IF Role = "client" THEN Viol(st, 130) ELSE CtlArrive(st, n, "ping", 0)
 
+\* poll_recv_decode: undecodable bytes end the connection with a protocol error (only when the dispatcher
+\* reads, i.e. when the service is ready), a packet is dispatched
+Read(st, p) == IF p.kind = "raw" THEN Stop(st, "stop_proto", 131) ELSE Dispatch(st, p)
+
 \* the in-flight limiter admits another request: requests are charged from dispatch until their result exists
 RECURSIVE SumSz(_)
 SumSz(q) == IF q = << >> THEN 0 ELSE (IF Head(q).r = Pend THEN Head(q).sz ELSE 0) + SumSz(Tail(q))
@@ -291,14 +313,14 @@ Quiesce(st) ==
   ELSE IF st.rdy
     THEN IF ~LimReady(st) THEN st
          ELSE IF st.rbuf = << >> THEN Quiesce([st EXCEPT !.rdy = FALSE])
-         ELSE Quiesce(Dispatch([st EXCEPT !.rdy = FALSE, !.rbuf = Tail(@)], Head(st.rbuf)))
+         ELSE Quiesce(Read([st EXCEPT !.rdy = FALSE, !.rbuf = Tail(@)], Head(st.rbuf)))
   ELSE IF st.ctlRun = 0 /\ st.ctlBuf # << >>
     THEN LET c == Head(st.ctlBuf)
              x == StartCtl([st EXCEPT !.ctlBuf = Tail(@)], c.n, c.kind, c.id, TRUE)
          IN Quiesce(IF x[2] = Pend THEN x[1] ELSE HandleRes(x[1], c.n, x[2]))
   ELSE IF st.ctlRun # 0 /\ st.held THEN st
   ELSE IF ~LimReady(st) THEN [st EXCEPT !.rdy = TRUE]
-  ELSE IF st.rbuf # << >> THEN Quiesce(Dispatch([st EXCEPT !.rbuf = Tail(@)], Head(st.rbuf)))
+  ELSE IF st.rbuf # << >> THEN Quiesce(Read([st EXCEPT !.rbuf = Tail(@)], Head(st.rbuf)))
   ELSE st
 
 ----------------------------------------------------------------------------
@@ -336,19 +358,41 @@ DoIn(st, pk, arm, ch) == Quiesce(Arrive([st EXCEPT !.armed = @ \o arm, !.ch = ch
 \* command: the application's handler h finishes with the given outcome
 DoComplete(st, gi, outcome, ch) ==
   LET g == st.gates[gi]
-      s1 == [Emit(st, << E("h_end", outcome, g.h, 0, 0, 135, 0, "") >>)
-               EXCEPT !.gates = SubSeq(@, 1, gi - 1) \o SubSeq(@, gi + 1, Len(@)), !.ch = ch]
+      rest == SubSeq(st.gates, 1, gi - 1) \o SubSeq(st.gates, gi + 1, Len(st.gates))
+  IN IF g.kind = "stop"
+       THEN StopDone([st EXCEPT !.gates = rest], g.h, g.id)
+       ELSE
+  LET s1 == [Emit(st, << E("h_end", outcome, g.h, 0, 0, 135, 0, "") >>) EXCEPT !.gates = rest, !.ch = ch]
   IN IF g.kind = "pub"
        THEN LET s2 == IF PubFails(g.q, outcome) THEN FailClose(s1, FALSE) ELSE s1 IN
             Quiesce(HandleRes(PubDone(s2, g.q, g.id, outcome), g.n, PubResult(g.q, g.id, outcome)))
        ELSE LET s2 == IF CtlFails(outcome) THEN FailClose(s1, TRUE) ELSE s1 IN
             Quiesce(HandleRes(CtlDone(s2, g.kind, g.id, outcome), g.n, CtlResult(g.kind, g.id, outcome)))
 
+\* command: the connection ends for a cause outside the packet stream
+\*   peer_close  the peer closes its end          raw    undecodable bytes arrive
+\*   close       MqttSink::close()                force  MqttSink::force_close()
+\* (undecodable bytes are a cause only once they are read: when the dispatcher is not reading at that moment the
+\*  generator makes no statement about the class of the Stop that follows - token "rawq" instead of "raw")
+CanRead(st) == ~(st.ctlRun # 0 /\ st.held) /\ LimReady(st) /\ st.rbuf = << >> /\ ~(st.ctlRun = 0 /\ st.ctlBuf # << >>)
+EndTok(st, k) == IF k = "raw" /\ ~CanRead(st) THEN "rawq" ELSE k
+DoEnd(st, k) ==
+  LET mark == IF k = "raw" /\ ~CanRead(st) THEN E("nocause", "", 0, 0, 0, 0, 0, "")
+              ELSE E("cause", IF k = "raw" THEN "stop_proto" ELSE "stop_peer", 0, 0, 0, 0, 0, "") IN
+  CASE k = "peer_close" -> Stop([Emit(st, << mark, E("peer_close", "", 0, 0, 0, 0, 0, "") >>) EXCEPT !.closed = TRUE], "stop_peer", -1)
+    [] k = "raw" -> Quiesce([Emit(st, << mark, E("in", "RESERVED", 0, 0, 0, 0, 0, "") >>)
+                              EXCEPT !.rbuf = Append(@, [n |-> 0, kind |-> "raw", id |-> 0, q |-> 0, topic |-> "", alias |-> 0, plen |-> 0, sz |-> 0])])
+    [] k = "close" ->
+         LET s1 == Emit(st, << mark, E("close", "close", 0, 0, 0, 0, 0, "") >>)
+             s2 == IF Ver = 5 THEN Write(s1, Resp("DISCONNECT", 0, 0)) ELSE s1
+         IN Stop(CloseSink(s2), "stop_peer", -1)
+    [] OTHER -> Stop([Emit(st, << mark, E("close", "force", 0, 0, 0, 0, 0, "") >>) EXCEPT !.closed = TRUE], "stop_peer", -1)
+
 \* events of the finished command, and the state ready for the next one
 Evs(st) == st.ev
 Next0(st) == [st EXCEPT !.ev = << >>, !.cur = 0, !.ch = 0]
 
 QueueOk(st) == /\ st.inline = 0 \/ \E i \in 1..Len(st.ioq) : st.ioq[i].n = st.inline
-               /\ \A i \in 1..Len(st.gates) : \E j \in 1..Len(st.ioq) : st.ioq[j].n = st.gates[i].n
+               /\ \A i \in 1..Len(st.gates) : st.gates[i].kind = "stop" \/ \E j \in 1..Len(st.ioq) : st.ioq[j].n = st.gates[i].n
                /\ st.pubIds \subseteq st.ids
 =============================================================================
